@@ -1,6 +1,6 @@
 ---- MODULE MC_Codecs ----
 EXTENDS Codecs
-AllKinds == {"fp16", "quat", "mm", "dd", "rgb", "range", "lh"}
+AllKinds == {"fp16", "quat", "mm", "dd", "rgb", "range", "lh", "stream"}
 \* float32 test values, little-endian bytes: 0, -0, 1, -2.5, pi, 0.1, 2^-149, max, then inf, -inf, nan
 F32Vals == << <<0, 0, 0, 0>>, <<0, 0, 0, 128>>, <<0, 0, 128, 63>>, <<0, 0, 32, 192>>, <<219, 15, 73, 64>>,
               <<205, 204, 204, 61>>, <<1, 0, 0, 0>>, <<255, 255, 127, 127>>,
@@ -26,4 +26,9 @@ KQuat == {"quat"}
 KTraj == {"mm", "dd"}
 KRgb == {"rgb"}
 KLh == {"lh"}
+KStream == {"stream"}
+\* streams: the changed half-float offset (high byte; low byte 0): 0, -0, 1, -1, inf, -inf, 2^-14, -65504-ish
+StreamOffQuick == {0, 128, 60, 188, 124, 252}
+StreamOffThorough == {0, 128, 60, 188, 124, 252, 4, 251}
+StreamPosBoth == {1, 5}
 ====
